@@ -371,6 +371,54 @@ def step (cfg : Cfg) (s : St) : Label → Option St
 /-- Every state reachable under SOME interleaving of sender operations, receiver steps and outcomes. -/
 def Reachable (cfg : Cfg) (s : St) : Prop := Sched.Reachable (step cfg) init s
 
+/-! ### User code the receiver calls besides `wait` / `on_batch` / the watchers: the `Channel` trait methods
+
+`Channel` (lib.rs:44-94) is implemented by the USER of the crate, so every call of one of its methods is a call-out
+into arbitrary code — which may itself use the `Sender`. `Receiver::exec` calls `new`, `len` and `with_capacity`
+(never `push` / `clear` / `is_empty`: those are the sender's, always under the lock). A call made while the state
+lock is held is part of the atomic step it sits in (re-entering the channel from there dead-locks; nothing can be
+interleaved); a call made outside the lock is an interleaving point BETWEEN two labels of the system: sender
+labels executed "inside" it are ordinary steps of the LTS at that position. The two functions below say where
+the calls are, in code order; the driver (Driver/Batcher.lean `chanWindows`) takes the window positions and the
+`held` verdicts from them, and stream `batcher` checks both against the real receiver (a harness-defined channel
+type whose methods probe the lock and run scripted sender ops). -/
+
+/-- The `Channel` methods `Receiver::exec` calls. -/
+inductive ChanCall where
+  | new            -- `T::new()`
+  | len            -- `channel.len()`
+  | withCapacity   -- `T::with_capacity(n)`
+  deriving Repr, DecidableEq
+
+/-- A call site: which method, and whether the state lock is held there. -/
+structure ChanSite where
+  call : ChanCall
+  locked : Bool
+  deriving Repr, DecidableEq
+
+/-- `let mut next_batch = Batch::new()` (lib.rs:365): when `exec` is first polled, before the loop — no lock. -/
+def chanCallsAtStart : List ChanSite := [⟨.new, false⟩]
+
+/-- The `Channel` calls the receiver makes at the START of label `l` in state `s`, before any effect of the label:
+      rxTake                 `state.next_batch.channel.len()` (lib.rs:377), then `mem::take(&mut next_batch)` =
+                             `Batch::default()` = `T::new()` (381) resp. `T::new()` (394) — INSIDE the critical section
+      rxBegin, batch ≠ []    `current_batch.channel.len()` and `T::with_capacity(..)` (lib.rs:412), no lock
+      rxOutcome (retry rem)  `retryable.len()` (lib.rs:430), no lock — before `Retry::next` and the wait request -/
+def chanCallsIn (s : St) : Label → List ChanSite
+  | .rxTake => [⟨.len, true⟩, ⟨.new, true⟩]
+  | .rxBegin => if s.rx.takenBatch.length > 0 then [⟨.len, false⟩, ⟨.withCapacity, false⟩] else []
+  | .rxOutcome (.failRetry _) => [⟨.len, false⟩]
+  | _ => []
+
+/-- … and right AFTER label `l` has led to `s'`: `current_batch.channel.len()` (lib.rs:405), once per hand-off, as soon
+    as `notify_on_take` is through (after the hand-off itself when no `when_empty` watcher was taken, else after the
+    callback of the last one) — no lock; before the flush callbacks of an empty hand-off resp. the resets. -/
+def chanCallsAfter (s' : St) : Label → List ChanSite
+  | .rxTake | .rxFireTake => match s'.rx with
+    | .taken _ [] _ _ => [⟨.len, false⟩]
+    | _ => []
+  | _ => []
+
 /-! ### The blocking / async send variants as steps (`send_or_wait`, lib.rs:225-259)
 
 `send_or_wait` = a first `try_send`; on ANY error the call is counted in `queue_full_blocked` (lib.rs:237) —
@@ -710,6 +758,23 @@ def flushSequence (cfg : Cfg) : Option (Bool × Bool × St) := do
     [{ flag := decide (2 ∈ s3.fired), timedOut := false, elapsed := 100 },
      { flag := decide (2 ∈ s4.fired), timedOut := false, elapsed := 100 }]
   pure (f1, f2, s4)
+
+/-- Stream `batcher_blocking`, case `blslow`: a processor whose single attempt takes arbitrarily long behind
+    `tokio::spawn` (tokio.rs:17-44: `exec` with `tokio::time::sleep` as the wait and the user's `on_batch` awaited in
+    place). `n` items are queued before the receiver starts; it takes them and hands them to the processor; while
+    that attempt is in flight a companion watcher (0) and the flush's own watcher (1) are registered. The attempt
+    concludes with `o` — after however long it takes: NO label carries a duration, which is why the length of the
+    attempt cannot matter — the next hand-off finds the queue empty and notifies both watchers, one after the other.
+    The flush (`tokio::flush` = `oneshotWait`; the blocking ones read their trigger the same way) sees its oneshot
+    sent. Returns the result, the number of items through their final attempt when the companion ran and when the
+    flush's own callback had run, and the final state. -/
+def slowFlush (cfg : Cfg) (n : Nat) (o : Outcome) (timeout : Nat) : Option (Bool × Nat × Nat × St) := do
+  let run := Sched.run (step cfg)
+  let s1 ← run (prefillState cfg .live n) [.rxTake, .rxBegin, .whenFlushed 0, .whenFlushed 1]
+  let s2 ← run s1 [.rxOutcome o, .rxTake, .rxFireFlush]
+  let s3 ← run s2 [.rxFireFlush]
+  let r := oneshotWait timeout (if 1 ∈ s1.fired then .sent else .empty) (if 1 ∈ s3.fired then .received else .elapsed)
+  pure (r, s2.finalised.length, s3.finalised.length, s3)
 
 /-- `sync::blocking_send` (sync.rs:97-140) = `send_or_wait` with the condvar wait. Against a live receiver the
     queue has been taken when the wait returns; against a stalled one the wait lasts until the timeout. -/
